@@ -333,6 +333,9 @@ func runC20(replay string) int {
 	if spec := os.Getenv("VERIF_C20_LIVE"); spec != "" {
 		c20LiveChild(spec) // child process of part (f-live), see c20_filters_live.go; never returns
 	}
+	if spec := os.Getenv(c20TraceEnv); spec != "" {
+		c20TraceChild(spec) // child process of part (q-trace), see c20_trace_live.go; never returns
+	}
 	run := ev.NewRun("C20", "model_checking")
 	if replay != "" {
 		return replayCase(run, replay, func(raw json.RawMessage) []ev.Finding {
